@@ -40,7 +40,7 @@ inline std::string mutate(sim_rng *r, const std::string &in) {
     for (int k = 0; k < n; k++) {
         size_t at = s.rfind('@');
         size_t dom_lo = at == std::string::npos ? 0 : at + 1;
-        unsigned op = (unsigned)sim_below(r, 18);
+        unsigned op = (unsigned)sim_below(r, 19);
         switch (op) {
         case 0: case 1: case 2: {           // insert a token anywhere
             const std::string &t = T[sim_below(r, T.size())];
@@ -91,6 +91,10 @@ inline std::string mutate(sim_rng *r, const std::string &in) {
         } else s += T[sim_below(r, T.size())]; break;                 // append
         case 13: s = T[sim_below(r, T.size())] + s; break;              // prepend
         case 14: if (at != std::string::npos) s += ".";  break;        // rooted
+        case 17: {                          // bit 5 of a few bytes flipped: for letters the other case, for everything else a different byte
+            int k = 1 + (int)sim_below(r, 3);   // that a sloppy "case-insensitive" comparison takes for the same ('.' / 0x0e, '-' / CR, digits / 0x10-0x19)
+            for (int i = 0; i < k && s.size() > dom_lo; i++) { size_t p = dom_lo + sim_below(r, s.size() - dom_lo); s[p] = (char)(s[p] ^ 0x20); }
+        } break;
         case 16: {                          // one label repeated many times (names of very many short labels)
             std::vector<size_t> cuts; cuts.push_back(dom_lo); for (size_t i = dom_lo; i < s.size(); i++) if (s[i] == '.') cuts.push_back(i + 1);
             size_t k = sim_below(r, cuts.size()); size_t lo = cuts[k], hi = k + 1 < cuts.size() ? cuts[k + 1] - 1 : s.size();
